@@ -83,6 +83,19 @@ func Run(c *core.Ctx, replay string) (*core.Result, error) {
 		addTable(w)
 		progs = append(progs, w)
 		witness = w.ID
+		// a column that reaches union members BEFORE their unions, in a package of its own (whatever else the
+		// random packages declare, and in whatever order their columns come)
+		ns := absprog.Slice(absprog.Basic("string"))
+		w2 := &absprog.Prog{ID: len(progs) + 1, Decls: []absprog.Decl{
+			{K: "iface", Name: "Shape", IMethods: []string{"isShape"}},
+			{K: "iface", Name: "Thing", IMethods: []string{"isThing"}},
+			{K: "struct", Name: "Circle", Fields: []absprog.Field{{Name: "R", Type: absprog.Basic("float64")}}, Methods: []absprog.Method{{Name: "isShape"}}},
+			{K: "struct", Name: "Rect", Fields: []absprog.Field{{Name: "W", Type: absprog.Basic("int")}, {Name: "H", Type: absprog.Basic("int"), Tag: `json:"h"`}}, Methods: []absprog.Method{{Name: "isShape"}, {Name: "isThing"}}},
+			{K: "named", Name: "Words", Under: &ns, Methods: []absprog.Method{{Name: "isThing"}}},
+			{K: "struct", Name: "MemberFirst", Fields: []absprog.Field{{Name: "First", Type: absprog.Ref("", "Circle")}, {Name: "Both", Type: absprog.Ref("", "Rect")}, {Name: "Then", Type: absprog.Ref("", "Shape")}, {Name: "Last", Type: absprog.Ref("", "Thing")}}},
+		}}
+		addTable(w2)
+		progs = append(progs, w2)
 	}
 	s, err := wire.Prepare(c.Sub("wire"), progs, false)
 	if err != nil {
